@@ -28,7 +28,7 @@ NOT_DECIDED = ["numerical equality with numpy indexing (the rule shows that the 
                "exceptional exits (a kernel raising between an in-place update and the cache reset)"]
 ASSUMPTIONS = ["numpy semantics of the modelled functions (np.array copies, np.asarray / ensure_type may return the argument, "
                "basic indexing returns a view)", "Topology.subset/join/copy return new objects (C04 decides their content)"]
-FLOORS = {"C03-R1": 12, "C03-R2": 5, "C03-R3": 3, "C03-R4": 8, "C03-R5": 40}
+FLOORS = {"C03-R1": 12, "C03-R2": 5, "C03-R3": 3, "C03-R4": 8, "C03-R5": 40, "C03-R6": 6}
 
 TRAJ = "mdtraj/core/trajectory.py"
 ALL_FIELDS = ["xyz", "topology", "time", "unitcell_lengths", "unitcell_angles"]
@@ -62,6 +62,8 @@ def check(ctx):
                        "on an alias, mutating kernel) assigns self._rmsd_traces / self.xyz on every path to normal exit")
     ctx.rule("C03-R4", "join concatenates xyz, time, unitcell_lengths, unitcell_angles over one list, dominated by the "
                        "atom-count and unit-cell-presence raises; stack hstacks (self.xyz, other.xyz) behind the frame-count raise")
+    ctx.rule("C03-R6", "a method with an `inplace` parameter returns `self` only on paths where inplace is true")
+    r6_inplace_returns(ctx)
     ctx.rule("C03-R5", "public analysis and save functions never store into their trajectory argument nor pass an alias of "
                        "its arrays to a parameter that a callee (Python, Cython or C via non-const pointer) writes")
     mod = ctx.py.mod(TRAJ)
@@ -392,3 +394,42 @@ def _r4(ctx, mod):
               and "n_frames" in src(cfg.stmt[n].test) and any(isinstance(s, ast.Raise) for s in cfg.stmt[n].body)]
     ok = bool(guards) and nd not in cfg.reachable(cfg.entry, removed={guards[0]})
     ctx.decide(ok, "C03-R4", h, TRAJ, q, "frame-count raise dominates hstack", "guarded", "hstack reachable without the n_frames check")
+
+
+def r6_inplace_returns(ctx):
+    """Methods with an `inplace` parameter: the receiver itself may be returned only on paths where `inplace` is true."""
+    from ..cfg import CFG
+    mod = ctx.py.mod(TRAJ)
+    n_methods = 0
+    for q, fn in sorted(mod.functions.items()):
+        if not q.startswith("Trajectory.") or q.count(".") != 1 or "inplace" not in params(fn):
+            continue
+        n_methods += 1
+        cfg = CFG(fn)
+
+        def atom_of(e):
+            if isinstance(e, ast.Name) and e.id == "inplace":
+                return "inplace"
+            if isinstance(e, ast.Compare) and isinstance(e.left, ast.Name) and e.left.id == "inplace" and len(e.ops) == 1 and isinstance(e.comparators[0], ast.Constant):
+                v = e.comparators[0].value
+                if isinstance(e.ops[0], (ast.Is, ast.Eq)) and v in (True, False):
+                    return "inplace" if v else ("~", "inplace")
+            return None
+        W = cfg.worlds_at(atom_of)
+        # names that alias self: `result = self` / `traj = self` under some condition
+        rets = [n for n in cfg.nodes() if cfg.kind[n] == "stmt" and isinstance(cfg.stmt[n], ast.Return) and cfg.stmt[n].value is not None]
+        n_self = 0
+        for r in rets:
+            v = cfg.stmt[r].value
+            if not (isinstance(v, ast.Name) and v.id == "self"):
+                continue
+            n_self += 1
+            worlds = [dict(w) for w in W[r]]
+            ok = bool(worlds) and all(w.get("inplace") is True for w in worlds)
+            ctx.decide(ok, "C03-R6", cfg.stmt[r], TRAJ, q, "`return self` only where inplace is true", "",
+                       "`return self` at line %d is reachable with inplace false (path facts %s): the caller is handed the input object instead of an independent result, so later edits of the 'copy' change the original"
+                       % (cfg.stmt[r].lineno, worlds[:2]))
+        if n_self == 0:
+            ctx.holds("C03-R6", fn, TRAJ, q, "no `return self`", "the result is built by a callee or is a new object")
+    if n_methods < 5:
+        raise AnalysisError("only %d Trajectory methods with an `inplace` parameter found" % n_methods)
